@@ -229,11 +229,14 @@ class ConcreteCtx:
     def note(self, s):
         self.notes.append(s)
 
-    def simp(self, x):
+    def simp(self, x, min_size=12):
         return x
 
     def lemma(self, cond, timeout_ms=0):
         return bool(cond)
+
+    def sqrt_factor(self, f):
+        return True
 
 
 def run_concrete(fn, params: dict, model: dict):
